@@ -7,7 +7,7 @@
 (* rest of the trace is still examined.  The trace is accepted iff no      *)
 (* MISMATCH line was printed and every line was consumed (postcondition).  *)
 (***************************************************************************)
-EXTENDS UintBytes, Json, IOUtils, TLC
+EXTENDS UintMath, Json, IOUtils, TLC
 
 Rec == ndJsonDeserialize(IOEnv.TRACE)
 
@@ -19,6 +19,7 @@ Check(e) ==
          [] e.g = "bits"  -> CheckBits(e)
          [] e.g = "conv"  -> CheckConv(e)
          [] e.g = "bytes" -> CheckBytes(e)
+         [] e.g = "math"  -> CheckMath(e)
          [] OTHER -> [unknown_group |-> FALSE]
 
 Fails(c) == {f \in DOMAIN c : ~c[f]}
